@@ -294,8 +294,9 @@ where
     // Generate number of rows for the range trace.
     let range_table_len = range.get_number_range_checker_rows();
 
-    // Get the trace length required to hold all execution trace steps.
-    let max_len = range_table_len.max(clk as usize).max(chiplets.trace_len());
+    // Get the trace length required to hold all execution trace steps. The executed operations must
+    // be followed by at least one HALT row (the rows holding random values do not count).
+    let max_len = range_table_len.max(clk as usize + 1).max(chiplets.trace_len());
 
     // pad the trace length to the next power of two and ensure that there is space for the
     // rows to hold random values
